@@ -612,3 +612,24 @@ def r1m_stateless_dispatch(ctx, rule='R1m'):
     if not bad and not cached:
         run.ok(rule, ch.where, ch.qualname, 'no module-level container of %s is consulted (%d defined, %d written)'
                % (mod.name, len(containers), len(written)))
+
+
+def r1a_arity(ctx, rule='R1a'):
+    """A user callable is taken for a row / rows / package step only if it has exactly one parameter: with more, the framework
+    cannot call it (the wrappers pass one argument), and the failure would surface only when the first row arrives - not at all on
+    an empty stream, where the link is then silently skipped."""
+    run, repo = ctx.run, ctx.repo
+    run.rule(rule, 'ARITY: the dispatch takes a function for a step only under `len(<its parameters>) == 1`')
+    ch = repo.cls('dataflows.base.flow:Flow').methods.get('_chain')
+    chn = ctx.N(ch)
+    tests = [t for t in ast.walk(chn.node) if isinstance(t, ast.Compare) and isinstance(t.left, ast.Call) and u(t.left.func) == 'len'
+             and len(t.ops) == 1 and isinstance(t.comparators[0], ast.Constant)]
+    arity = [t for t in tests if 'param' in u(t.left).lower() or 'signature' in u(t.left).lower()]
+    if not arity:
+        raise AnalysisError('Flow._chain: the test on the number of parameters of a user callable was not found')
+    for t in arity:
+        # (`== 1` on the accepting side or `!= 1` on the rejecting side: the partition is at exactly one parameter either way; which
+        # side does what is R1's question)
+        run.check(isinstance(t.ops[0], (ast.Eq, ast.NotEq)) and t.comparators[0].value == 1, rule, where(repo, t), ch.qualname, u(t),
+                  'a callable with more (or fewer) than one parameter is accepted as a step: the framework cannot call it, and on an '
+                  'empty stream nobody notices - the link is silently skipped instead of being rejected')
